@@ -105,6 +105,10 @@ mod geom;
 mod rasterizer;
 mod stroke;
 mod tests;
+#[cfg(feature = "verif")]
+pub mod verif;
+#[cfg(feature = "verif")]
+pub use crate::dash::dash_path as verif_dash_path;
 
 mod path_builder;
 pub use path_builder::*;
